@@ -12,7 +12,7 @@ use crate::tackler;
 use itertools::Itertools;
 use rust_decimal::Decimal;
 use std::{
-    collections::{HashMap, HashSet},
+    collections::{BTreeSet, HashMap},
     sync::Arc,
 };
 
@@ -195,7 +195,7 @@ impl Balance {
             )?
             .into_iter()
             .flatten()
-            .collect::<HashSet<_>>() // make it distinct
+            .collect::<BTreeSet<_>>() // make it distinct, and ordered (so sums do not depend on hash order)
             .into_iter()
             .collect::<Vec<(TxnAccount, Decimal)>>();
 
